@@ -132,6 +132,63 @@ def errbars_on_markers(segs, pts):
     return None
 
 
+# ----------------------------------------------------------------------------- option VALUE FORMS
+# Established on the unchanged tree (probe): CMIF_plot accepts nSv as Python int, any NumPy integer (np.int64/np.int32/np.intp, an element of
+# np.arange, the result of np.argmax) and "all" (a float or a numeric string raises TypeError: not generated); stab_plot / cluster_plot use
+# hide_poles by truthiness (True/False, 1/0, np.True_/np.False_, np.bool_(0), results of np.all/np.any); step / ordmin / ordmax as int or
+# np.int64; freqlim as tuple, list or ndarray (or None).  Every accepted form of one value must give the same diagram.
+COUNT_FORMS = ["int", "int", "np.int64", "np.int32", "np.intp", "arange", "argmax"]
+SWITCH_FORMS = ["bool", "bool", "int", "np.bool_", "np.bool_()", "np.all/any"]
+STEP_FORMS = ["int", "int", "np.int64"]
+LIM_FORMS = ["tuple", "tuple", "list", "ndarray"]
+
+
+def count_form(v, tag):
+    if v == "all":
+        return "all"
+    v = int(v)
+    if tag == "np.int64":
+        return np.int64(v)
+    if tag == "np.int32":
+        return np.int32(v)
+    if tag == "np.intp":
+        return np.intp(v)
+    if tag == "arange":
+        return np.arange(v - 2, v + 3)[2]
+    if tag == "argmax" and v >= 0:
+        a = np.zeros(v + 1)
+        a[v] = 1.0
+        return np.argmax(a)
+    return v
+
+
+def switch_form(b, tag):
+    b = bool(b)
+    if tag == "int":
+        return 1 if b else 0
+    if tag == "np.bool_":
+        return np.True_ if b else np.False_
+    if tag == "np.bool_()":
+        return np.bool_(1 if b else 0)
+    if tag == "np.all/any":
+        return np.any(np.array([b, False])) if b else np.all(np.array([True, b]))
+    return b
+
+
+def step_form(v, tag):
+    return np.int64(v) if tag == "np.int64" else int(v)
+
+
+def lim_form(lim, tag):
+    if lim is None:
+        return None
+    if tag == "list":
+        return [float(lim[0]), float(lim[1])]
+    if tag == "ndarray":
+        return np.array([lim[0], lim[1]], float)
+    return (lim[0], lim[1])
+
+
 # ----------------------------------------------------------------------------- oracles (property text in NumPy)
 def oracle_stab(Fn, Lab, step, hide):
     rows, cols = Fn.shape
@@ -495,6 +552,13 @@ def table_case(ctx, case, exprs, meta, big):
     cov = None if case.get("Fn_cov") is None else np.array([[NAN if v is None else v for v in r] for r in case["Fn_cov"]], float)
     step, hide, freqlim = int(case["step"]), bool(case["hide"]), case.get("freqlim")
     freqlim = None if freqlim is None else tuple(freqlim)
+    hide_arg = switch_form(hide, case.get("hide_form", "bool"))          # the option value FORMS handed to the functions
+    step_arg = step_form(step, case.get("step_form", "int"))
+    lim_arg = lim_form(freqlim, case.get("freqlim_form", "tuple"))
+    ctx.hist("hide_form", "%s=%s" % (case.get("hide_form", "bool"), hide))
+    ctx.hist("step_form", case.get("step_form", "int"))
+    ctx.hist("freqlim_form", "None" if freqlim is None else case.get("freqlim_form", "tuple"))
+    Fn_w, Xi_w, Lab_w = Fn.copy(), Xi.copy(), Lab.copy()                 # ONE set of caller arrays for all diagrams of the case
     rows, cols = Fn.shape
     ordmax = (cols - 1) * step if cols > 1 else step
     stab_o, stab_u = oracle_stab(Fn, Lab, step, hide)
@@ -516,8 +580,9 @@ def table_case(ctx, case, exprs, meta, big):
         ctx.hist("stab_axes_mode", amode)
         kw, ax0 = foreign_axes(amode)
         before = census(ax0)
-        fig, ax = plot.stab_plot(Fn.copy(), Lab.copy(), step, ordmax, ordmin=int(case.get("ordmin", 0)), freqlim=freqlim,
-                                 hide_poles=hide, Fn_cov=None if cov is None else cov.copy(), **kw)
+        cov_w = None if cov is None else cov.copy()
+        fig, ax = plot.stab_plot(Fn_w, Lab_w, step_arg, step_form(ordmax, case.get("step_form", "int")), ordmin=step_form(int(case.get("ordmin", 0)), case.get("step_form", "int")),
+                                 freqlim=lim_arg, hide_poles=hide_arg, Fn_cov=cov_w, **kw)
         prob = census_problem(before, ax0, fig, ax)
         if prob:
             ctx.fail("oracle", "stab_plot (axes mode %s): %s - every marker must land in the diagram's own axes" % (amode, prob), case,
@@ -543,7 +608,7 @@ def table_case(ctx, case, exprs, meta, big):
     try:
         _kw, _ = foreign_axes("bystander" if (case.get("axes_mode") or "none") != "none" else "none")
         before = census(None)
-        fig, ax = plot.cluster_plot(Fn.copy(), Xi.copy(), Lab.copy(), ordmin=int(case.get("ordmin", 0)), freqlim=freqlim, hide_poles=hide)
+        fig, ax = plot.cluster_plot(Fn_w, Xi_w, Lab_w, ordmin=int(case.get("ordmin", 0)), freqlim=lim_arg, hide_poles=hide_arg)   # same arrays, same option forms
         prob = census_problem(before, None, fig, ax)
         if prob:
             ctx.fail("oracle", "cluster_plot: %s" % prob, case, key="C20:cluster_plot:foreign-axes")
@@ -560,6 +625,20 @@ def table_case(ctx, case, exprs, meta, big):
         ctx.fail("oracle", "cluster_plot raised %s: %s" % (type(e).__name__, str(e)[:200]), case, key="C20:cluster_plot:raised")
     finally:
         plt.close("all")
+    # ---- a later diagram drawn from the same caller arrays equals a first drawing (the arrays went through stab_plot and cluster_plot)
+    if case.get("redraw"):
+        try:
+            fig, ax = plot.stab_plot(Fn_w, Lab_w, step, ordmax, ordmin=0, freqlim=None, hide_poles=hide, Fn_cov=None if cov is None else cov_w)
+            arts, _ = read_axes(ax)
+            st, un = split_families(arts, hide)
+            if (fr_pts(st), fr_pts(un)) != (fr_pts(stab_o), fr_pts(stab_u)):
+                ctx.fail("oracle", "stab_plot: a second diagram drawn from the same arrays (after stab_plot and cluster_plot used them) no longer shows the table's poles: "
+                         "%d+%d markers, want %d+%d" % (len(st), len(un), len(stab_o), len(stab_u)), case, key="C20:stab_plot:later-diagram-from-same-arrays")
+        except Exception as e:  # noqa: BLE001
+            ctx.fail("oracle", "stab_plot raised on a second drawing from the same arrays: %s: %s" % (type(e).__name__, str(e)[:200]), case,
+                     key="C20:stab_plot:later-diagram-from-same-arrays")
+        finally:
+            plt.close("all")
     # ---- the two diagrams draw the same poles (damping finite exactly where frequency is)
     if "stab" in res and "cluster" in res and np.array_equal(np.isnan(Fn), np.isnan(Xi)):
         for k, fam in ((0, "stable"), (1, "unstable")):
@@ -697,7 +776,10 @@ def cmif_case(ctx, case, exprs, meta):
         ctx.hist("cmif_axes_mode", amode)
         kw, ax0 = foreign_axes(amode)
         before = census(ax0)
-        fig, ax = plot.CMIF_plot(S.copy(), freq.copy(), freqlim=None if freqlim is None else tuple(freqlim), nSv=nSv, **kw)
+        nSv_arg = count_form(nSv, case.get("nSv_form", "int"))
+        ctx.hist("nSv_form", "all" if nSv == "all" else case.get("nSv_form", "int"))
+        S_w, freq_w = S.copy(), freq.copy()
+        fig, ax = plot.CMIF_plot(S_w, freq_w, freqlim=lim_form(freqlim, case.get("freqlim_form", "tuple")), nSv=nSv_arg, **kw)
         prob = census_problem(before, ax0, fig, ax)
         if prob:
             ctx.fail("oracle", "CMIF_plot (axes mode %s): %s - every curve must land in the diagram's own axes" % (amode, prob), case,
@@ -711,9 +793,19 @@ def cmif_case(ctx, case, exprs, meta):
         plt.close("all")
     if admissible:
         if isinstance(res, str):
-            ctx.fail("oracle", "CMIF_plot raised for an admissible number of curves nSv=%r (n=%d): %s" % (nSv, n, res), case, key="C20:CMIF_plot:raised")
+            ctx.fail("oracle", "CMIF_plot raised for an admissible number of curves nSv=%r (%s, n=%d): %s" % (nSv, case.get("nSv_form", "int"), n, res), case,
+                     key="C20:CMIF_plot:raised")
         else:
             check_curves(ctx, res, freq, oracle_cmif(S, nSv), case, "CMIF_plot")
+            if case.get("redraw"):   # a later diagram from the same caller arrays equals a first drawing
+                try:
+                    fig, ax = plot.CMIF_plot(S_w, freq_w, nSv="all")
+                    check_curves(ctx, read_curves(ax), freq, oracle_cmif(S, "all"), dict(case, second_drawing=True), "CMIF_plot")
+                except Exception as e:  # noqa: BLE001
+                    ctx.fail("oracle", "CMIF_plot raised on a second drawing from the same arrays: %s: %s" % (type(e).__name__, str(e)[:200]), case,
+                             key="C20:CMIF_plot:later-diagram-from-same-arrays")
+                finally:
+                    plt.close("all")
     nexp = (n if nSv == "all" else max(int(nSv), 0)) if admissible else 0
     queue_cmif(S, nSv, nexp, ("cmif", case, res, S, freq), exprs, meta)
 
@@ -836,7 +928,7 @@ def sequence_case(ctx, case, exprs, meta, big):
             ctx.hist("sequence_item", fn)
             if fn == "cmif":
                 S, freq = np.array(src["S"], float), np.array(src["freq"], float)
-                d["fig"], d["ax"] = plot.CMIF_plot(S.copy(), freq.copy(), freqlim=freqlim, nSv=it.get("nSv", "all"))
+                d["fig"], d["ax"] = plot.CMIF_plot(S.copy(), freq.copy(), freqlim=freqlim, nSv=count_form(it.get("nSv", "all"), it.get("nSv_form", "int")))
                 d["want"] = (freq, oracle_cmif(S, it.get("nSv", "all")))
             else:
                 Fn, Xi, Lab = _arr(src["Fn"]), _arr(src["Xi"]), np.array(src["Lab"])
@@ -844,10 +936,11 @@ def sequence_case(ctx, case, exprs, meta, big):
                 d.update(Fn=Fn, Xi=Xi, Lab=Lab, step=step)
                 if fn == "stab":
                     cols = Fn.shape[1]
-                    d["fig"], d["ax"] = plot.stab_plot(Fn.copy(), Lab.copy(), step, (cols - 1) * step if cols > 1 else step, ordmin=0, freqlim=freqlim, hide_poles=hide)
+                    d["fig"], d["ax"] = plot.stab_plot(Fn.copy(), Lab.copy(), step, (cols - 1) * step if cols > 1 else step, ordmin=0, freqlim=freqlim,
+                                                       hide_poles=switch_form(hide, it.get("hide_form", "bool")))
                     d["want"] = oracle_stab(Fn, Lab, step, hide)
                 else:
-                    d["fig"], d["ax"] = plot.cluster_plot(Fn.copy(), Xi.copy(), Lab.copy(), ordmin=0, freqlim=freqlim, hide_poles=hide)
+                    d["fig"], d["ax"] = plot.cluster_plot(Fn.copy(), Xi.copy(), Lab.copy(), ordmin=0, freqlim=freqlim, hide_poles=switch_form(hide, it.get("hide_form", "bool")))
                     d["want"] = oracle_cluster(Fn, Xi, Lab, hide)
             d["shown0"] = extract_diagram(fn, d["ax"], hide) if fn != "cmif" else None
             d["labels0"] = ax_labels(d["ax"])
@@ -902,11 +995,11 @@ def class_sequence_case(ctx, case):
                 step = int(alg.run_params.step) if cls_name.startswith("SSI") else 1
                 if what == "stab":
                     d["fn"] = "stab"
-                    d["fig"], d["ax"] = alg.plot_stab(hide_poles=bool(hide))
+                    d["fig"], d["ax"] = alg.plot_stab(hide_poles=switch_form(hide, SWITCH_FORMS[(k + 1) % len(SWITCH_FORMS)]))
                     d["want"] = oracle_stab(Fn, Lab, step, bool(hide))
                 else:
                     d["fn"] = "cluster"
-                    d["fig"], d["ax"] = alg.plot_cluster(hide_poles=bool(hide))
+                    d["fig"], d["ax"] = alg.plot_cluster(hide_poles=switch_form(hide, SWITCH_FORMS[(k + 1) % len(SWITCH_FORMS)]))
                     d["want"] = oracle_cluster(Fn, Xi, Lab, bool(hide))
             d["shown0"] = extract_diagram(d["fn"], d["ax"], d["hide"]) if d["fn"] != "cmif" else None
             d["labels0"] = ax_labels(d["ax"])
@@ -955,15 +1048,19 @@ def class_case(ctx, case, exprs, meta, big):
             lv = 10 * np.log10(np.array([S[k, k] for k in range(n)]) / S[0, 0].max())
         ctx.hist("fdd_exact_zero_singular_value", bool(np.isneginf(lv).any()))
         ctx.hist("fdd_finite_level_below_-156.5dB", bool((np.isfinite(lv) & (lv < -156.6)).any()))
-        for nSv in case.get("nSv", ["all", 1, n - 1]):
+        nforms = case.get("nSv_forms")
+        for q, nSv in enumerate(case.get("nSv", ["all", 1, n - 1])):
             for freqlim in (None, (1.0, fs / 4)):
-                sub = dict(case, nSv=nSv, freqlim=freqlim)
+                nform = nforms[q % len(nforms)] if nforms else COUNT_FORMS[int(rng.integers(len(COUNT_FORMS)))]
+                lform = LIM_FORMS[int(rng.integers(len(LIM_FORMS)))]
+                sub = dict(case, nSv=nSv, freqlim=freqlim, nSv_form=nform, freqlim_form=lform)
+                ctx.hist("class_nSv_form", "all" if nSv == "all" else nform)
                 try:
-                    fig, ax = alg.plot_CMIF(freqlim=freqlim, nSv=nSv)
+                    fig, ax = alg.plot_CMIF(freqlim=lim_form(freqlim, lform), nSv=count_form(nSv, nform))
                     curves = read_curves(ax)
                     check_curves(ctx, curves, freq, oracle_cmif(S, nSv), sub, "FDD.plot_CMIF")
                 except Exception as e:  # noqa: BLE001
-                    ctx.fail("oracle", "FDD.plot_CMIF(nSv=%r) raised %s: %s" % (nSv, type(e).__name__, str(e)[:200]), sub, key="C20:FDD.plot_CMIF:raised")
+                    ctx.fail("oracle", "FDD.plot_CMIF(nSv=%r as %s) raised %s: %s" % (nSv, nform, type(e).__name__, str(e)[:200]), sub, key="C20:FDD.plot_CMIF:raised")
                     curves = None
                 finally:
                     plt.close("all")
@@ -974,13 +1071,18 @@ def class_case(ctx, case, exprs, meta, big):
     rows, cols = Fn.shape
     step = int(alg.run_params.step) if cls_name.startswith("SSI") else 1
     ctx.hist("class_stable_poles", min(int(((Lab == 1) & np.isfinite(Fn)).sum()) // 5 * 5, 50))
+    hforms = case.get("hide_forms")
     for hide in (True, False):
         for freqlim in (None, (2.0, 12.0)):
-            sub = dict(case, hide=hide, freqlim=freqlim)
+            hform = (hforms[int(freqlim is not None) % len(hforms)] if hforms else SWITCH_FORMS[1 + int(rng.integers(len(SWITCH_FORMS) - 1))])
+            lform = LIM_FORMS[int(rng.integers(len(LIM_FORMS)))]
+            hide_arg, lim_arg = switch_form(hide, hform), lim_form(freqlim, lform)     # the same forms go to plot_stab and plot_cluster
+            ctx.hist("class_hide_form", "%s=%s" % (hform, hide))
+            sub = dict(case, hide=hide, freqlim=freqlim, hide_form=hform, freqlim_form=lform)
             want_s, want_u = oracle_stab(Fn, Lab, step, hide)
             got = None
             try:
-                fig, ax = alg.plot_stab(freqlim=freqlim, hide_poles=hide)
+                fig, ax = alg.plot_stab(freqlim=lim_arg, hide_poles=hide_arg)
                 arts, segs = read_axes(ax)
                 st, un = split_families(arts, hide)
                 got = (fr_pts(st), fr_pts(un))
@@ -1000,7 +1102,7 @@ def class_case(ctx, case, exprs, meta, big):
             want_cs, want_cu = oracle_cluster(Fn, Xi, Lab, hide)
             gotc = None
             try:
-                fig, ax = alg.plot_cluster(freqlim=freqlim, hide_poles=hide)
+                fig, ax = alg.plot_cluster(freqlim=lim_arg, hide_poles=hide_arg)
                 arts, _ = read_axes(ax)
                 st, un = split_families(arts, hide)
                 gotc = (fr_pts(st), fr_pts(un))
@@ -1011,6 +1113,10 @@ def class_case(ctx, case, exprs, meta, big):
                 ctx.fail("oracle", "%s.plot_cluster raised %s: %s" % (cls_name, type(e).__name__, str(e)[:200]), sub, key="C20:%s.plot_cluster:raised" % cls_name)
             finally:
                 plt.close("all")
+            if got is not None and gotc is not None and np.array_equal(np.isnan(Fn), np.isnan(Xi)):
+                if any(sorted(q[0] for q in got[kk]) != sorted(q[0] for q in gotc[kk]) for kk in (0, 1)):
+                    ctx.fail("oracle", "%s with hide_poles=%r (%s): the two diagrams do not show the same poles: plot_stab %d stable / %d unstable, plot_cluster %d / %d"
+                             % (cls_name, hide_arg, hform, len(got[0]), len(got[1]), len(gotc[0]), len(gotc[1])), sub, key="C20:%s:same-poles" % cls_name)
             if freqlim is None:
                 hb = "true" if hide else "false"
                 fam = "ssi_plot_stab Fn Lab (%d) %s" % (step, hb) if cls_name.startswith("SSI") else "plscf_plot_stab Fn Lab %s" % hb
@@ -1098,6 +1204,8 @@ def run(ctx):
         nst = max(1, int(((Lab == 1) & np.isfinite(Fn)).sum()))
         case = dict(type="tables", kind=kind, Fn=jl(Fn), Xi=jl(Xi), Lab=Lab.tolist(), lab_float=bool(rng.random() < 0.4),
                     step=int(rng.choice([1, 1, 1, 2, 3, 5])), hide=bool(rng.random() < 0.5), freqlim=gen_freqlim(rng),
+                    hide_form=str(rng.choice(SWITCH_FORMS)), step_form=str(rng.choice(STEP_FORMS)), freqlim_form=str(rng.choice(LIM_FORMS)),
+                    redraw=bool(rng.random() < 0.25),
                     Fn_cov=None if cov is None else jl(cov), ordmin=int(rng.integers(0, 3)), axes_mode=str(rng.choice(["none", "none", "none", "bystander", "panel", "panel", "otherfig"])),
                     pick_idx=[int(v) for v in rng.integers(0, nst, size=2)], rtol=float(rng.choice([0.05, 0.01, 0.0])))
         table_case(ctx, case, exprs, meta, big)
@@ -1126,6 +1234,7 @@ def run(ctx):
         freq = np.cumsum(rng.integers(1, 9, size=nf)) / 16.0
         nSv = "all" if rng.random() < 0.4 else int(rng.integers(-1, n + 2))
         case = dict(type="cmif", S=S.tolist(), freq=freq.tolist(), nSv=nSv, freqlim=gen_freqlim(rng, 0.0, float(freq[-1])),
+                    nSv_form=str(rng.choice(COUNT_FORMS)), freqlim_form=str(rng.choice(LIM_FORMS)), redraw=bool(rng.random() < 0.3),
                     axes_mode=str(rng.choice(["none", "none", "bystander", "panel", "otherfig"])))
         cmif_case(ctx, case, exprs, meta)
     # ---- diagrams are independent objects: sequences A, B, A', ... with every returned (fig, ax) kept and re-read at the end
@@ -1138,15 +1247,15 @@ def run(ctx):
         Sq = (rng.integers(1, 4096, size=(n, n, 6)) / 64.0).tolist()
         fq = (np.cumsum(rng.integers(1, 9, size=6)) / 16.0).tolist()
         first = str(rng.choice(["cluster", "cluster", "stab"]))
-        items = [dict(base[0], fn=first, hide=bool(rng.random() < 0.5), step=int(rng.choice([1, 2])), freqlim=gen_freqlim(rng))]
+        items = [dict(base[0], fn=first, hide=bool(rng.random() < 0.5), hide_form=str(rng.choice(SWITCH_FORMS)), step=int(rng.choice([1, 2])), freqlim=gen_freqlim(rng))]
         for j in range(int(rng.integers(2, 5))):
             fn = str(rng.choice(["cluster", "cluster", "stab", "stab", "cmif"]))
             if fn == "cmif":
-                items.append(dict(fn="cmif", S=Sq, freq=fq, nSv=("all" if rng.random() < 0.5 else int(rng.integers(1, n)))))
+                items.append(dict(fn="cmif", S=Sq, freq=fq, nSv=("all" if rng.random() < 0.5 else int(rng.integers(1, n))), nSv_form=str(rng.choice(COUNT_FORMS))))
             elif rng.random() < 0.4:   # A': an earlier table drawn again with other options
                 items.append(dict(fn=fn, same_as=0, hide=bool(rng.random() < 0.5), step=int(rng.choice([1, 3])), freqlim=gen_freqlim(rng)))
             else:
-                items.append(dict(base[1], fn=fn, hide=bool(rng.random() < 0.5), step=int(rng.choice([1, 2])), freqlim=gen_freqlim(rng)))
+                items.append(dict(base[1], fn=fn, hide=bool(rng.random() < 0.5), hide_form=str(rng.choice(SWITCH_FORMS)), step=int(rng.choice([1, 2])), freqlim=gen_freqlim(rng)))
         items.append(dict(base[1] if rng.random() < 0.5 else base[0], fn=first, hide=bool(rng.random() < 0.5), step=1, freqlim=None))   # the first kind once more
         sequence_case(ctx, dict(type="sequence", items=items), exprs, meta, big)
     loose = dict(sc=dict(err_fn=0.05, err_xi=0.8, err_phi=0.3), hc=dict(conj=True, xi_max=0.2, mpc_lim=0.5, mpd_lim=0.5))
